@@ -61,14 +61,14 @@ def extra_obligations(index, tier):
     out.append(("ternary-is-right-associative", B.get("?", (None, None))[1] == "RIGHT", "", key))
     out.append(("unary-operator-set", set(U) == {"-", "+", "!", "~"}, str(sorted(U)), key))
     src = "".join(ast.unparse(index.func(key).node).split())
-    out.append(("climbing-guard: operator taken iff prec >= min_precedence", ".prec>=min_precedence" in src, "", key))
-    out.append(("LEFT: rhs = expression(prec + 1)", "ifassoc=='LEFT':rhs=self.expression(prec+1)" in src, "", key))
-    out.append(("RIGHT: rhs = expression(prec)", "elifassoc=='RIGHT':rhs=self.expression(prec)" in src, "", key))
+    out.append(("climbing-guard: operator taken iff prec >= min_precedence", ".prec>=min_precedence" in src, "", key, "pattern"))
+    out.append(("LEFT: rhs = expression(prec + 1)", "ifassoc=='LEFT':rhs=self.expression(prec+1)" in src, "", key, "pattern"))
+    out.append(("RIGHT: rhs = expression(prec)", "elifassoc=='RIGHT':rhs=self.expression(prec)" in src, "", key, "pattern"))
     ev = ast.unparse(index.func("codebasin.preprocessor:ExpressionEvaluator.evaluate").node)
-    out.append(("truth-value==(value != 0)", "return test_val != 0" in ev, "", "codebasin.preprocessor:ExpressionEvaluator.evaluate"))
+    out.append(("truth-value==(value != 0)", "return test_val != 0" in ev, "", "codebasin.preprocessor:ExpressionEvaluator.evaluate", "pattern"))
     prim = ast.unparse(index.func("codebasin.preprocessor:ExpressionEvaluator.primary").node)
     out.append(("unary operand parsed at the unary precedence", "expr = self.expression(prec)" in prim, "",
-                "codebasin.preprocessor:ExpressionEvaluator.primary"))
+                "codebasin.preprocessor:ExpressionEvaluator.primary", "pattern"))
     return out
 
 
